@@ -8,7 +8,7 @@ from sa.effects import open_mode
 from sa.flow import show, sig, subterms
 from sa.model import AnalysisError, norm, parent, walk_no_nested
 
-from .common import alts, callers_of, commands, is_call, is_const, is_plain_iter, prov, unshipped_modules
+from .common import include_rules, alts, callers_of, commands, is_call, is_const, is_plain_iter, prov, unshipped_modules
 from .xmlcommon import format_domain
 
 BASE58 = "123456789ABCDEFGHJKLMNPQRSTUVWXYZabcdefghijkmnopqrstuvwxyz"
@@ -350,6 +350,8 @@ def run(report, p):
         else:
             raise
 
+    include_rules(report, p, 'c13', ['R13.3'], 'a digest is recorded for the file it was computed from: record keys are the exact relative paths (no normalisation that lets two files share one key)')
+    include_rules(report, p, 'c10', ['R10.3'], 'paths are converted separator-only on the way out and in: two files whose names differ only in normal form keep separate records')
     report.not_decided += ["that hashlib/xxhash implement the standard algorithms", "the base-58 conversion for all 512-bit values (only its constants, direction and encoder/decoder agreement)", "digests of concrete files"]
 
 
